@@ -26,6 +26,9 @@ instance {α : Type} : Inhabited (Col α) := ⟨⟨.list, []⟩⟩
 
 abbrev Batch (α : Type) := List (Col α)
 
+/-- `_batch_size(batch[0])`: the number of rows of a batch, read off its first column -/
+def nrows {α : Type} (b : Batch α) : Nat := (b.headD default).rows.length
+
 set_option linter.unusedVariables false in
 /-- `more_itertools.sliced(seq, n)` (n > 0): consecutive slices of length `n`,
 the last one possibly shorter, none for an empty sequence. -/
@@ -127,7 +130,7 @@ of the generator sees them). -/
 structure Run (α : Type) where
   out : List (Batch α)
   err : Option ErrKind
-  deriving Repr
+  deriving Repr, DecidableEq
 
 def runFrom {α : Type} (target ncols : Nat) (pad : Option α) :
     St α → List (Batch α) → List (Batch α) → Run α
@@ -151,5 +154,75 @@ def run {α : Type} (target numColumns : Nat) (pad : Option α)
     else match bs with
       | [] => ⟨[], none⟩                               -- `mit.first(tuples, None) is None: return`
       | b :: _ => runFrom target b.length pad (St.init b.length) [] bs
+
+/-! ## Online view
+
+The generator yields the batches of one loop iteration *before* it pulls the next input
+batch.  `feed` is the loop without the final (source-exhausted) iteration: the state reached
+and the batches yielded after pulling exactly the batches `bs`.  `online` is what a consumer
+has received at that point; `pulls` says, for every batch `run` yields, how many `next(tuples)`
+calls the generator had made when it yielded it (observable by wrapping the source). -/
+
+structure Feed (α : Type) where
+  st : St α
+  out : List (Batch α)
+  err : Option ErrKind
+
+def feed {α : Type} (target ncols : Nat) (pad : Option α) : St α → List (Batch α) → Feed α
+  | st, [] => ⟨st, [], none⟩
+  | st, b :: bs =>
+    match step target ncols pad st b with
+    | .ok (st', o) => let f := feed target ncols pad st' bs; ⟨f.st, o ++ f.out, f.err⟩
+    | .error e => ⟨st, [], some e⟩
+
+/-- the column count the generator works with (`num_columns or len(first_batch)`) -/
+def effCols {α : Type} (numColumns : Nat) (bs : List (Batch α)) : Nat :=
+  if numColumns != 0 then numColumns else (bs.headD []).length
+
+/-- batches yielded by `rebatched_args(iter(bs), ...)` up to the moment it asks for the batch after `bs` -/
+def online {α : Type} (target numColumns : Nat) (pad : Option α) (bs : List (Batch α)) :
+    List (Batch α) :=
+  if target == 0 then bs
+  else (feed target (effCols numColumns bs) pad (St.init (effCols numColumns bs)) bs).out
+
+/-- for each yielded batch, the number of `next(tuples)` calls made so far (1-based index of the
+input batch whose iteration yielded it; `len(bs)+1` for the source-exhausted iteration) -/
+def pulls {α : Type} (target numColumns : Nat) (pad : Option α) (bs : List (Batch α)) : List Nat :=
+  let total := (run target numColumns pad bs).out.length
+  let counts := (List.range (bs.length + 1)).map fun k => (online target numColumns pad (bs.take k)).length
+  (List.range total).map fun j => (counts.takeWhile (· ≤ j)).length
+
+/-! ## `TreeFn._iterate` (chainables/tree_fns.py:233–254): re-batch, call, re-batch
+
+```
+fn_inputs = map(self._get_inputs, input_iterator)                    # tuple of `_num_inputs` columns
+if self.fn_batch_size: fn_inputs = rebatched_args(fn_inputs, batch_size=self.fn_batch_size, num_columns=self._num_inputs)
+fn_outputs = map(self._maybe_call_fn, fn_inputs)                     # one call per (re-batched) batch
+fn_outputs = map(self._normalize_outputs, fn_outputs)                # tuple of `_num_outputs` columns
+if self.batch_size: fn_outputs = rebatched_args(fn_outputs, batch_size=self.batch_size, num_columns=self._num_outputs)
+```
+Both re-batchers are lazy generators: the second pulls from the first through `map`, so if the
+first raises, the second has yielded exactly what it yields online for the batches it received. -/
+
+def treeFn {α β : Type} (fnBatch batch nin nout : Nat) (G : Batch α → Batch β)
+    (bs : List (Batch α)) : Run β :=
+  let r1 := run fnBatch nin none bs
+  let mid := r1.out.map G
+  match r1.err with
+  | none => run batch nout none mid
+  | some e => ⟨online batch nout none mid, some e⟩
+
+/-- rows of a batch: row `i` = the `i`-th element of every column -/
+def rowsOf {α : Type} [Inhabited α] (b : Batch α) : List (List α) :=
+  (List.range (nrows b)).map fun i => b.map fun c => c.rows.getD i default
+
+/-- columns (of the given kinds) from rows -/
+def ofRows {β : Type} [Inhabited β] (kinds : List Kind) (rows : List (List β)) : Batch β :=
+  (List.range kinds.length).map fun c => ⟨kinds.getD c .list, rows.map fun r => r.getD c default⟩
+
+/-- a row-wise batch function: applies `g` to every row, output columns have the given kinds -/
+def mapRows {α β : Type} [Inhabited α] [Inhabited β] (g : List α → List β) (kinds : List Kind)
+    (b : Batch α) : Batch β :=
+  ofRows kinds ((rowsOf b).map g)
 
 end MlModel.Rebatch
